@@ -534,6 +534,46 @@ func c17ReplicaScenario(rep *kit.Report, id int, rng *kit.RNG, key string) {
 		return
 	}
 	events = append(events, "start("+lagger+")")
+	// the stopped replica never made a snapshot itself: a snapshot index in its
+	// Raft statistics means it installed the one of the metadata leader
+	installed := ""
+	if !vfWait(40*time.Second, func() bool {
+		s := c.Nodes[lagger].Server()
+		if s == nil || s.getRaft() == nil {
+			return false
+		}
+		installed = s.getRaft().Stats()["last_snapshot_index"]
+		return installed != "" && installed != "0" && c.Nodes[lagger].Partition(stream, 0) != nil
+	}) {
+		inconc("the stopped replica did not install a snapshot")
+		return
+	}
+	rep.Count("replica_installed_snapshot_from_leader", 1)
+	if p := c.Nodes[lagger].Partition(stream, 0); p.encryptionHandler == nil {
+		rep.Violation("C17:stream-not-encrypted:replica:follower-that-installed-a-snapshot", fmt.Sprintf("the partition object that server %s built for encrypted stream %s from the snapshot it installed has no encryption handler", lagger, stream), replay("server", lagger))
+	}
+	// A partition restored by a snapshot that arrives AFTER the server finished
+	// its start-up replay is not started by this tree (it waits for a recovery
+	// end that already happened) — not this property's subject.  The replica
+	// is restarted so that it serves the stream from the installed snapshot.
+	if err := c.StopNode(lagger); err != nil {
+		inconc("stop: " + err.Error())
+		return
+	}
+	if err := c.StartNode(lagger); err != nil {
+		inconc("restart of " + lagger + ": " + err.Error())
+		return
+	}
+	events = append(events, "restart("+lagger+")")
+	// a server whose snapshot covers its whole Raft log starts the restored
+	// partitions when the next metadata operation is applied: give it one
+	{
+		n := fmt.Sprintf("c17rfill%d-after", id)
+		if err := c.CreateStream(&client.CreateStreamRequest{Subject: n, Name: n, ReplicationFactor: 1}); err != nil {
+			inconc("filler stream: " + err.Error())
+			return
+		}
+	}
 	// all three know the stream, follow the same leader and hold every message
 	if _, err := c.PartitionLeader(stream, 0, 60*time.Second); err != nil {
 		inconc(err.Error())
@@ -552,13 +592,6 @@ func c17ReplicaScenario(rep *kit.Report, id int, rng *kit.RNG, key string) {
 		inconc("replicas did not catch up after the restarts:" + c17ReplicaView(c, stream))
 		return
 	}
-	// did the stopped replica really get a snapshot from the leader (it never
-	// made one itself)
-	installed := c.Nodes[lagger].Server().getRaft().Stats()["last_snapshot_index"]
-	if installed == "" || installed == "0" {
-		inconc("the stopped replica was caught up from the Raft log, it did not install a snapshot")
-		return
-	}
 	rep.Count("replica_rebuilt_from_installed_snapshot", 1)
 	// read from every replica
 	for _, n := range c.Running() {
@@ -568,7 +601,7 @@ func c17ReplicaScenario(rep *kit.Report, id int, rng *kit.RNG, key string) {
 		}
 		how2 := role
 		if n.ID == lagger {
-			how2 = "follower-that-installed-a-snapshot"
+			how2 = "follower-restarted-from-installed-snapshot"
 		} else if n.ID == other {
 			how2 = "follower-restarted-from-own-snapshot"
 		}
